@@ -86,7 +86,7 @@ def run(ctx):
     # (b)+(c) every transition of the bounded scopes forced onto real goroutines
     scopes = [("ControlBufGen1.cfg", None), ("ControlBufGen2.cfg", ctx.pick(1200, None))]
     if not ctx.quick():
-        scopes.append(("ControlBufGen3.cfg", 6000))
+        scopes.append(("ControlBufGen3.cfg", 3000))
     rows = []
     for cfg, limit in scopes:
         g = ctx.dump_graph("ControlBuf", cfg)
@@ -115,7 +115,7 @@ def run(ctx):
     # (d)+(e) free-running stress with jitter, judged by the same monitor
     if not ctx.violations:
         tpath = os.path.join(ctx.run, "trace-c16-stress.ndjson")
-        rounds = ctx.pick(300, 6000)
+        rounds = ctx.pick(300, 3000)
         out = ctx.driver(binary, "TestVerifC16Stress", {"VERIF_OUT": tpath, "VERIF_ROUNDS": rounds}, timeout=1200)
         s = summary(out)
         ctx.count({"stress_rounds": rounds, "seed": ctx.seed}, n=rounds)
